@@ -274,6 +274,7 @@ func checkC04(c *Ctx) {
 	r.Rule("R04.4", "object bracketing: the member-list emitter is always called between an opening and a closing brace emitted by the same function in JSON mode (top level and nested groups), and a member separator is not written right after an opening brace")
 	r.Rule("R04.9", "member grammar: in the member-list emitter every mode-feasible path from a member separator to the next element (or out of the function) writes a key, and every path from a key writes a value (the value switch, the timestamp printer or a value stringer), so no element is dropped after its separator")
 	r.Rule("R05.10", "(shared with C05) the message is handed on as given from the verbs to the encoder's message field")
+	r.Rule("R04.10", "array grammar: in every list writer that separates elements by ',' each function of the package called in the loop that can write to the record writes on every mode-feasible path, so no element is empty")
 	r.Rule("R04.5", "framing: the only constant containing a line break that JSON mode can emit is the one End(true) writes")
 	r.Rule("R04.8", "value fidelity (necessary for 'decodes to what was logged'): in JSON mode every floating-point value is rendered by strconv with precision -1 and the bit size of its own static type, every integer in base 10, and every time VALUE with a constant layout that has nanosecond digits and a zone; the parameters are resolved to constants over all call chains")
 	r.Rule("R08.1", "(shared with C08) what a record says was logged by this call: nothing on the print path writes memory that outlives the call other than the pooled objects of this call")
@@ -303,6 +304,7 @@ func checkC04(c *Ctx) {
 		c08Stores(c, p, m)
 		c04Brackets(c, p, m, mr)
 		c04Members(c, p, m, mr)
+		c04Elements(c, p, m, mr)
 		newlineRule(c, p, mr, "R04.5", map[string]string{"PrintCtx.End": "the record terminator of End(true)", "PrintCtx.EndArray": "EndArray(newline) for user marshallers", "Entry.printImpl": "blank-line shortcut"})
 		// the same with the testing/debug-only branches included: in JSON mode the post-record error dump is skipped, so
 		// "one line" holds under go test and a debugger too
@@ -992,4 +994,157 @@ func finiteOnly(b *ssa.BasicBlock, mode Mode) bool {
 		}
 	}
 	return false
+}
+
+// c04Elements: R04.10 — array grammar. A slice writer that puts a ',' between elements commits itself to an element
+// after every separator (and after '['): every function of the package it calls in the loop that CAN write to the
+// record must write on EVERY mode-feasible path (an element writer that returns silently for nil leaves ",," or
+// "[," behind).
+func c04Elements(c *Ctx, p *Prog, m *Model, mr *ModeReach) {
+	r := c.R
+	// a store to the encoder's buffer field, or a call of the io.Writer-style methods of the encoder
+	isBuf := func(v ssa.Value) bool {
+		for _, sv := range sources(v) {
+			if sl, ok := sv.(*ssa.Slice); ok {
+				sv = strip(sl.X)
+			}
+			if _, ok := isFieldLoadOf(sv, "PrintCtx", "buf"); ok {
+				return true
+			}
+		}
+		return false
+	}
+	bufStore := func(in ssa.Instruction) bool {
+		switch x := in.(type) {
+		case *ssa.Store:
+			if fa, ok := x.Addr.(*ssa.FieldAddr); ok && typeName(fa.X.Type()) == "PrintCtx" && nm(structOf(fa.X.Type()).Field(fa.Field)) == "buf" {
+				return true
+			}
+			if ia, ok := x.Addr.(*ssa.IndexAddr); ok && isBuf(ia.X) {
+				return true // s.buf[m] = c
+			}
+		case *ssa.Call:
+			if isBuiltinCall(x, "copy") && isBuf(x.Common().Args[0]) {
+				return true // copy(s.buf[m:], p)
+			}
+		}
+		return false
+	}
+	always := map[*ssa.Function]int{} // 0 unknown, 1 busy, 2 yes, 3 no
+	may := map[*ssa.Function]int{}
+	var mayEmit func(fn *ssa.Function) bool
+	mayEmit = func(fn *ssa.Function) bool {
+		if fn == nil || len(fn.Blocks) == 0 || fn.Pkg != p.Slog {
+			return false
+		}
+		switch may[fn] {
+		case 1:
+			return false
+		case 2:
+			return true
+		case 3:
+			return false
+		}
+		may[fn] = 1
+		res := false
+		for _, b := range fn.Blocks {
+			for _, in := range b.Instrs {
+				if bufStore(in) {
+					res = true
+				}
+				if cs, ok := in.(ssa.CallInstruction); ok && !res {
+					if mayEmit(calleeOf(cs)) {
+						res = true
+					}
+				}
+			}
+		}
+		if res {
+			may[fn] = 2
+		} else {
+			may[fn] = 3
+		}
+		return res
+	}
+	var alwaysEmits func(fn *ssa.Function) bool
+	alwaysEmits = func(fn *ssa.Function) bool {
+		if fn == nil || len(fn.Blocks) == 0 || fn.Pkg != p.Slog {
+			return false
+		}
+		switch always[fn] {
+		case 1:
+			return false // recursion: not counted as an emission
+		case 2:
+			return true
+		case 3:
+			return false
+		}
+		always[fn] = 1
+		emitsIn := func(b *ssa.BasicBlock) bool {
+			for _, in := range b.Instrs {
+				if bufStore(in) {
+					return true
+				}
+				if cs, ok := in.(ssa.CallInstruction); ok {
+					if alwaysEmits(calleeOf(cs)) {
+						return true
+					}
+				}
+			}
+			return false
+		}
+		// is a return reachable from the entry through mode-feasible edges avoiding every emitting block?
+		seen := map[*ssa.BasicBlock]bool{}
+		silent := false
+		var dfs func(b *ssa.BasicBlock)
+		dfs = func(b *ssa.BasicBlock) {
+			if silent || seen[b] {
+				return
+			}
+			seen[b] = true
+			if emitsIn(b) {
+				return
+			}
+			if _, ok := b.Instrs[len(b.Instrs)-1].(*ssa.Return); ok {
+				silent = true
+				return
+			}
+			for _, sx := range feasibleSuccs(b, mr.Mode) {
+				dfs(sx)
+			}
+		}
+		dfs(fn.Blocks[0])
+		if silent {
+			always[fn] = 3
+		} else {
+			always[fn] = 2
+		}
+		return !silent
+	}
+	n := 0
+	for _, ce := range mr.constEmissions() {
+		if ce.Text != "," || !inLoop(ce.Instr.Block()) || nm(ce.Fn) == "serializeAttrs" || nm(ce.Fn) == "pcAppendComma" {
+			continue
+		}
+		fn := ce.Fn
+		n++
+		var probs []string
+		for _, cs := range callsIn(fn) {
+			if !mr.Blocks[fn][cs.Block()] || !inLoop(cs.Block()) {
+				continue
+			}
+			cal := calleeOf(cs)
+			if cal == nil || cal.Pkg != p.Slog || !mayEmit(cal) {
+				continue
+			}
+			if !alwaysEmits(cal) {
+				probs = append(probs, fmt.Sprintf("%s (called at %s) can return without having written anything", shortName(cal), p.Pos(instrPos(cs))))
+			}
+		}
+		r.Check(len(probs) == 0, "R04.10", fmt.Sprintf("elements[%s]:%s", mr.Mode, shortName(origin(fn))), p.FuncPos(fn), "every element writer called between the separators writes on every path",
+			"a list writer separates its elements by ',' but an element can be empty: "+strings.Join(dedupStr(probs), "; ")+": the array comes out as [x,,y] or [,x], which is not JSON")
+	}
+	if n == 0 {
+		r.Unk("R04.10", fmt.Sprintf("elements[%s]", mr.Mode), "-", "no list writer with a ',' separator found in %s mode", mr.Mode)
+	}
 }
